@@ -193,7 +193,7 @@ VClassM(pcs) == LET m == InM(pcs)
 \* Cells of level G + d (d in -1..1), coordinates (ci,cj) at that level.  In quad units the
 \* cell occupies [lo, lo + w] with w = 8, 4, 2.
 CellClassG(InOp(_, _), d, ci, cj) ==
-    LET w == IF d = -1 THEN 8 ELSE IF d = 0 THEN 4 ELSE 2
+    LET w == IF d = -1 THEN 8 ELSE IF d = 0 THEN 4 ELSE IF d = 1 THEN 2 ELSE 1   \* d = 2: level G+2
         x0 == ci * w  x1 == x0 + w
         y0 == cj * w  y1 == y0 + w
         \* level-G cells whose closed square meets the closed cell (4i <= x1 /\ 4i+4 >= x0) /
@@ -214,6 +214,23 @@ CellClassM(pcs, d) ==
     LET n == IF d = -1 THEN S \div 2 ELSE IF d = 0 THEN S ELSE 2 * S
         m == InM(pcs)
     IN  [cj \in 1..n |-> [ci \in 1..n |-> CellClassG(LAMBDA i, j : InT(m, i, j), d, ci - 1, cj - 1)]]
+
+\* Cells deeper than level G+1 (down to leaf cells) are not tabulated.  A cell T below its
+\* level-(G+1) ancestor A (closed T inside closed A, T inside one level-G cell) inherits from
+\* the class k of A:  what ContainsCell / IntersectsCell must answer ("T"/"F"), or "U" when
+\* it depends on where inside A the cell lies (whether it touches the boundary A touches).
+DeepContains(k) == IF k = 1 THEN "T" ELSE IF k \in {0, 3, 4} THEN "F" ELSE "U"
+DeepIntersects(k) == IF k \in {1, 2} THEN "T" ELSE IF k = 0 THEN "F" ELSE "U"
+\* the rule is consistent with the exact classes one level further down (level G+2)
+DeepRuleTheorem(pcs) ==
+    \A qi \in 0..(4 * S - 1), qj \in 0..(4 * S - 1) :
+        LET k == CellClass(pcs, 1, qi \div 2, qj \div 2)
+            kq == CellClass(pcs, 2, qi, qj)
+        IN  /\ kq # 3 /\ k # 3
+            /\ DeepContains(k) = "T" => kq = 1
+            /\ DeepContains(k) = "F" => kq \in {0, 4}
+            /\ DeepIntersects(k) = "T" => kq \in {1, 2}
+            /\ DeepIntersects(k) = "F" => kq = 0
 
 \* ---- which cells an edge meets ----------------------------------------------------
 AxisParallel(e) == e[1][1] = e[2][1] \/ e[1][2] = e[2][2]
